@@ -53,7 +53,7 @@ PLANS = {
         'schedule_measure': 'distinct (abstract object, iteration order of its Q/Sigma/Gamma/F/V sets) pairs',
         'assumptions': COMMON_ASSUMPTIONS + ['a call that does not return within 400k (PDA: 1.2M) ticks is counted as not returning in finite time',
                                              'PDA narrowing: a witness is demanded only when the library\'s own pda_accepts_word says True under the current limit'],
-        'expected_probes': ['kind_dfa', 'kind_nfa', 'kind_pda', 'kind_cfg', 'epsilon_cycle_present', 'run_with_epsilon_steps', 'nontrivial'],
+        'expected_probes': ['kind_dfa', 'kind_nfa', 'kind_pda', 'kind_cfg', 'epsilon_cycle_present', 'run_with_epsilon_steps', 'nontrivial', 'limit_above_default', 'inplace_edit_between_calls'],
         'technique': 'deterministic simulation: seeded search over set-iteration schedules (PYTHONHASHSEED x renaming x insertion order) under a simulated tick clock (bounded liveness); independent witness re-checker; minimised replay files',
         'level_text': 'seeded sampling of automata/grammars x words x schedules; every returned run/derivation is re-checked step by step against the snapshot by an independent checker, acceptance comes from the reference, and every call must return within the tick budget; evidence, not proof',
         'design_ref': 'DESIGN.md 5.6',
@@ -69,7 +69,8 @@ PLANS = {
                  'non-trivial = language neither empty nor Sigma* (and >= 2 states for DFAs).'),
         'schedule_measure': 'distinct (abstract input, iteration order of the DFA\'s Q/Sigma/F sets resp. of the result NFA\'s Q) pairs; the elimination order is the iteration order of Q - {start, accept}',
         'assumptions': COMMON_ASSUMPTIONS + ['inputs are bounded (<= 6 DFA states) because extracted expressions grow exponentially; larger inputs are excluded for cost only'],
-        'expected_probes': ['kind_regexp', 'kind_dfa', 'nontrivial', 'state_named_start_or_accept'],
+        'expected_probes': ['kind_regexp', 'kind_dfa', 'nontrivial', 'state_named_start_or_accept', 'alphabet_contains_0_or_1', 'three_symbols',
+                            'earlier_conversions_in_same_interpreter', 'inplace_edit_between_calls'],
         'technique': 'deterministic simulation: seeded search over state-elimination schedules (PYTHONHASHSEED x renaming x insertion order); exact language-equality oracle via reference Thompson/subset/minimal-DFA; minimised replay files',
         'level_text': 'seeded sampling of regular expressions and DFAs x elimination orders; exact (all word lengths) language comparison against independent reference constructions; evidence, not proof',
         'design_ref': 'DESIGN.md 5.3',
@@ -89,7 +90,8 @@ PLANS = {
         'assumptions': COMMON_ASSUMPTIONS + ['language comparison is bounded in word length (can refute, not prove, equality)',
                                              'phases are only applied in pipeline order, which is all the statement promises'],
         'expected_probes': ['at_least_26_variables', 'multi_letter_variable', 'nullable_start', 'hint_clashes_with_variable', 'nontrivial',
-                            'apply_phase_0', 'apply_phase_1', 'apply_phase_2', 'apply_phase_3', 'apply_phase_4', 'apply_phase_5'],
+                            'apply_phase_0', 'apply_phase_1', 'apply_phase_2', 'apply_phase_3', 'apply_phase_4', 'apply_phase_5',
+                            'earlier_conversion_of_twin', 'inplace_edit_between_calls'],
         'technique': 'deterministic simulation: seeded search over variable-iteration schedules (PYTHONHASHSEED x variable renaming x insertion order); bounded reference-language oracle plus phase postconditions and argument snapshots; minimised replay files',
         'level_text': 'seeded sampling of grammars x schedules; every phase result is compared with an independent bounded language fixpoint, its own postcondition is re-checked by reference predicates, and the argument is snapshotted before/after (rule order included); evidence, not proof',
         'design_ref': 'DESIGN.md 5.4',
@@ -107,7 +109,8 @@ PLANS = {
         'schedule_measure': 'distinct (abstract PDA, iteration order of its Q/Sigma/Gamma/F sets) pairs; truncation order is todo.pop()',
         'assumptions': COMMON_ASSUMPTIONS + ['"each epsilon-closure it has to compute" is read as the exact closed configuration sets C0, C1, ... of the textbook algorithm'],
         'expected_probes': ['closure_exceeds_limit', 'closure_exceeds_1000', 'limit_equals_closure_size', 'limit_is_closure_size_plus_one',
-                            'limit_is_closure_size_minus_one', 'truncated_and_accepting', 'truncated_and_missed', 'nontrivial'],
+                            'limit_is_closure_size_minus_one', 'truncated_and_accepting', 'truncated_and_missed', 'nontrivial',
+                            'limit_above_default_and_closure_between', 'inplace_edit_between_calls'],
         'technique': 'deterministic simulation: seeded sessions over the ambient closure-limit knob x truncation schedules (PYTHONHASHSEED x renaming); exact reference acceptance (matched push/pop summaries) and exact closure sizes; minimised replay files',
         'level_text': 'seeded sampling of PDAs x words x limit settings x schedules; soundness is checked unconditionally and completeness exactly when the reference proves every closure fits under the limit; evidence, not proof',
         'design_ref': 'DESIGN.md 5.5',
@@ -125,7 +128,7 @@ PLANS = {
         'schedule_measure': 'distinct (abstract object, iteration order of its Q/Sigma/Gamma/F/V sets) pairs',
         'assumptions': COMMON_ASSUMPTIONS + ['the oracle is the library\'s own acceptance test, as the statement says; its correctness is the business of other properties',
                                              'multi-character regexp symbols and the set pass-through of generate_language are not among "the six kinds" and are not generated'],
-        'expected_probes': ['kind_dfa', 'kind_nfa', 'kind_pda', 'kind_tm', 'kind_cfg', 'kind_regexp', 'n_0', 'n_1', 'n_2', 'closure_truncated', 'nontrivial'],
+        'expected_probes': ['kind_dfa', 'kind_nfa', 'kind_pda', 'kind_tm', 'kind_cfg', 'kind_regexp', 'n_0', 'n_1', 'n_2', 'closure_truncated', 'nontrivial', 'regexp_symbol_0_or_1'],
         'technique': 'deterministic simulation: seeded sessions over ambient knobs (closure limit, TM step budget, n) x schedules (PYTHONHASHSEED x renaming); brute-force oracle through the library\'s own acceptance test; truncation observed at the pda_epsilon_closure seam; minimised replay files',
         'level_text': 'seeded sampling of objects of all six kinds x bounds x knob settings x schedules, three sub-checks per step (nothing longer than n, nothing missing, nothing extra) plus generate_language == direct call; candidly, for five of the six kinds this is input generation riding along with the PDA/TM configuration dimension; evidence, not proof',
         'design_ref': 'DESIGN.md 5.1',
@@ -142,7 +145,8 @@ PLANS = {
                  'all pool objects unchanged after the call. distinct = distinct session; non-trivial = some operand is itself a result of an earlier construction.'),
         'schedule_measure': 'distinct (session, iteration order of each base NFA\'s state set) pairs; history measure: hidden-counter values at which a construction ran and operation bigrams are in coverage.histogram',
         'assumptions': COMMON_ASSUMPTIONS + ['narrowing: both operands of one call share the same epsilon symbol'],
-        'expected_probes': ['non_default_epsilon', 'private_generator', 'next_default_name_is_an_operand_state', 'nontrivial'],
+        'expected_probes': ['non_default_epsilon', 'private_generator', 'next_default_name_is_an_operand_state', 'nontrivial',
+                            'operand_with_shared_target_sets', 'inplace_edit_between_calls'],
         'technique': 'deterministic simulation: seeded operation histories in pristine interpreters (hidden name generators and aliasing are the state under test) x schedules; reference union/concat/star oracle with exact language equality and snapshots after every step; ddmin over the step list; minimised replay files',
         'level_text': 'seeded sampling of call histories over a pool of NFAs; every construction result is compared exactly (all word lengths) with the reference construction on pre-call snapshots, and every pool object is re-snapshotted after every step; evidence, not proof',
         'design_ref': 'DESIGN.md 5.7',
@@ -163,7 +167,7 @@ PLANS = {
         'assumptions': COMMON_ASSUMPTIONS + ['witness lists (simulation runs, derivations) are not compared across replicas: C15 allows any valid witness',
                                              'CFG and PDA results are compared on words of bounded length (<= 4 resp. <= 3)',
                                              'a consistent exception (e.g. dfa_make_total: RecursionError) is agreement, not a violation of this property'],
-        'expected_probes': ['nontrivial_steps', 'solo_reexecutions', 'pda_call_with_truncated_closure'],
+        'expected_probes': ['nontrivial_steps', 'solo_reexecutions', 'pda_call_with_truncated_closure', 'inplace_edit_between_calls'],
         'technique': 'deterministic simulation of replicas: one seeded operation history executed by several fresh interpreters (different PYTHONHASHSEED, logging on/off) and re-executed step-wise in pristine forks; differential oracle on language-level outcome digests plus snapshots after every step; ddmin over the step list inside the same two interpreters; replay files confirmed in fresh interpreters',
         'level_text': 'seeded sampling of call histories x hash seeds x logging; argument integrity is checked after every step in every replica, and replica / solo / logging agreement is checked on every step outcome; evidence, not proof',
         'design_ref': 'DESIGN.md 5.8',
